@@ -278,7 +278,11 @@ def _method(lines: list[tuple[str, str]]):
     return Mdl.Method(lines=[Mdl.MethodLine(id=i, content=c) for i, c in lines], version=0)
 
 
-def gen_edit_method(rng) -> list:
+FAILING_LINES = {"Wait: abc": "Wait: 0.25s", "Run counter: x": "Run counter: 3", "Base: parsec": "Base: s",
+                 "Frobnicate": "Mark: fixed", "Unknowncmd: 3": "CmdA"}
+
+
+def gen_edit_method(rng, failing: bool = False) -> list:
     """A method with one or two macros (bodies with Marks, Waits, commands, a nested Watch or Block with
     lines of its own) that are called from the main flow with Waits around, so that edits can arrive while
     a macro is in the middle of its body, after it completed, before a second call …"""
@@ -306,9 +310,16 @@ def gen_edit_method(rng) -> list:
         return b
     names = ["A"] if rng.random() < 0.5 else ["A", "B"]
     items = [("macro", nm, body(nm)) for nm in names]
+    if failing:
+        # a line that fails when it runs (the run then pauses in its error state), after at least one Mark of the body
+        b = items[0][2]
+        pos = rng.randrange(1, len(b))
+        while pos < len(b) and b[pos - 1][0] in ("watch", "block"):
+            pos += 1
+        b.insert(pos, ("cmd", rng.choice(list(FAILING_LINES))))
     items.append(mk("s"))
-    for _ in range(rng.randrange(1, 4)):
-        items.append(("call", rng.choice(names)))
+    for k in range(rng.randrange(1, 4)):
+        items.append(("call", "A" if failing and k == 0 else rng.choice(names)))
         items.append(rng.choice([("wait", "0.5s"), mk("s"), ("cmd", "CmdA")]))
     items.append(mk("e"))
     return items
@@ -342,6 +353,19 @@ def gen_macro_edit(rng, pcode: str, name: str):
     flat = [k for k in sig if _ind(lines[k]) == 4 and not lines[k].strip().startswith(("Watch", "Block"))]
     kind = rng.choice(["text", "threshold", "threshold", "dedent-last", "indent-next", "swap", "delete-line",
                        "insert-line", "remove-macro", "rename-header", "header-to-block", "nested-text"])
+    failed = [k for k in sig if lines[k].strip() in FAILING_LINES]
+    if failed and rng.random() < 0.5:
+        # the line that failed is corrected (or given a threshold / removed): still an edit of a started macro
+        k = failed[0]
+        how = rng.choice(["correct", "correct", "threshold", "delete"])
+        ind = " " * _ind(lines[k])
+        if how == "correct":
+            return "correct-failed-line", [(i, ind + FAILING_LINES[lines[k].strip()]) if j == k else (i, x)
+                                           for j, (i, x) in enumerate(idl)]
+        if how == "threshold":
+            return "threshold-on-failed-line", [(i, ind + "2.5 " + lines[k].strip()) if j == k else (i, x)
+                                                for j, (i, x) in enumerate(idl)]
+        return "delete-failed-line", [x for j, x in enumerate(idl) if j != k]
 
     def repl(k, c):
         return [(i, c) if j == k else (i, x) for j, (i, x) in enumerate(idl)]
@@ -421,13 +445,16 @@ def oracle_edit(case: dict) -> Failure | None:
     body_marks = {lines[k].strip().split("Mark: ")[1].split(" ")[0] for k in body if "Mark: " in lines[k]}
     ref = EngineRun(pcode)
     try:
-        ref_marks = []
+        ref_marks, ref_err = [], []
         for _ in range(n_ticks):
-            ref_marks.append(_marks(ref.tick()))
+            sn = ref.tick()
+            ref_marks.append(_marks(sn))
+            ref_err.append(sn["tags"].get("Method Status") == "Error")
     finally:
         ref.close()
     if "t_frac" in case:
-        cand = [t for t in range(1, n_ticks) if set(ref_marks[t - 1]) & body_marks]
+        cand = [t for t in range(1, n_ticks) if set(ref_marks[t - 1]) & body_marks
+                and (not case.get("after_error") or ref_err[t - 1])]
         if not cand:
             return None
         t_edit = cand[int(case["t_frac"] * len(cand))]
@@ -597,15 +624,18 @@ def gen_oracle_cases(ctx: Check, n_expand: int, n_rec: int, n_edit: int) -> list
     from harness.macro_gen import pcode_of
     made = 0
     while made < n_edit:
-        items = gen_edit_method(rng)
-        name = rng.choice([it[1] for it in items if it[0] == "macro"])
+        failing = rng.random() < 0.3
+        items = gen_edit_method(rng, failing=failing)
+        # with a failing line: macro A is the one that has started and failed (the run is paused in error)
+        name = "A" if failing else rng.choice([it[1] for it in items if it[0] == "macro"])
         e = gen_macro_edit(rng, pcode_of(items), name)
         if e is None:
             continue
         made += 1
-        ctx.count("oracle:edit:" + e[0])
+        ctx.count("oracle:edit:" + e[0] + (":paused-in-error" if failing else ""))
         cases.append({"kind": "edit", "items": items, "macro": name, "ticks": min(_budget(items) + 40, 320),
-                      "t_frac": rng.random() ** 2, "edit_kind": e[0], "edit": [list(x) for x in e[1]]})
+                      "t_frac": rng.random() if failing else rng.random() ** 2, "after_error": failing,
+                      "edit_kind": e[0], "edit": [list(x) for x in e[1]]})
     for _ in range(max(4, n_edit // 3)):
         items = gen_overlap(rng)
         ticks = min(_budget(items) + 120, 400)
